@@ -2288,4 +2288,19 @@ M("s14-quiet-width-by-helper-match", "C05", "quiet", "src/check.rs",
             Type::Signed(n) => matches!(n, SignedNumType::I32),
             _ => false,
         };""", "behaviour-preserving: the width test written as a match")
+REVERT("revert-struct-pattern-alignment", "C17", "fire T14", "ccbd2fe", "pre-fix tree: struct pattern fields taken positionally in the exhaustiveness check")
+REVERT("revert-struct-pattern-alignment-c01", "C01", "fire V16", "ccbd2fe", "pre-fix tree: non-exhaustive struct matches accepted, evaluate to 0")
+REVERT("revert-number-pattern-range", "C17", "fire T15", "4f8bd5a", "pre-fix tree: `256` accepted as a pattern for a u8")
+M("t15-range-upper-bound-unchecked", "C17", "fire T15", "src/check.rs",
+  """                    expect_pattern_in_range(ty, *from as i128, *to as i128, meta)?;
+                    PatternEnum::UnsignedInclusiveRange(*from, *to, *suffix)""",
+  """                    expect_pattern_in_range(ty, *from as i128, *from as i128, meta)?;
+                    PatternEnum::UnsignedInclusiveRange(*from, *to, *suffix)""", "only the lower bound of an unsigned range pattern is range-checked")
+M("t14-quiet-position-lookup", "C17", "quiet", "src/check.rs",
+  """                    match fields.iter().find(|(name, _)| name == field_name) {
+                        Some((_, pattern)) => row.push(pattern.clone()),
+                        None => {""",
+  """                    match fields.iter().position(|(name, _)| name == field_name) {
+                        Some(i) => row.push(fields[i].1.clone()),
+                        None => {""", "behaviour-preserving: pattern field looked up by position of the equal name")
 
